@@ -118,7 +118,7 @@ static MPT_STRUCT(buffer) *h_new(size_t len, int flags)
 	if (h_alloc_fails || len > BCAP) return 0;
 	j = !h_alive[0] ? 0 : (!h_alive[1] ? 1 : (!h_alive[2] ? 2 : -1));
 	__CPROVER_assert(j >= 0, "harness: buffer pool exhausted");
-	{ size_t nd_sz; sz = nd_sz; }
+	V_ND(size_t, sz);
 	__CPROVER_assume(sz >= len && sz <= BCAP);      /* an allocator may round the size up */
 	h_pool_(j)->b._vptr = &h_buf_vptr; h_pool_(j)->b._content_traits = 0; *((size_t *) &h_pool_(j)->b._size) = sz; h_pool_(j)->b._used = 0;
 	h_refs[j] = 1; h_uflags[j] = flags & MPT_ENUM(BufferFlagsUser); h_alive[j] = 1;
@@ -130,7 +130,7 @@ MPT_STRUCT(buffer) *_mpt_buffer_alloc(size_t len, int flags) { return h_new(len,
 
 /* --- harness helpers --- */
 /* put pool[0] into an arbitrary valid state: capacity, fill, holders, flags, raw or typed (all elements below used alive) */
-#define H_SETUP(size_, used_, refs_, flags_, typed_) do { size_t s_; \
+#define H_SETUP(size_, used_, refs_, flags_, typed_) do { size_t s_; V_OBJ(h_b0); V_OBJ(h_b1); V_OBJ(h_b2); \
 	h_b0.b._vptr = &h_buf_vptr; h_b0.b._content_traits = (typed_) ? &h_traits : 0; \
 	*((size_t *) &h_b0.b._size) = (size_); h_b0.b._used = (used_); \
 	h_refs[0] = (refs_); h_uflags[0] = (flags_); h_alive[0] = 1; \
